@@ -109,7 +109,7 @@ func realMain(args []string) int {
 		}
 		switch cfg.tier {
 		case "quick":
-			cfg.budgetS, cfg.minBatches, cfg.maxBatches, cfg.detBatches, cfg.parBatches, cfg.minimiseS = 50, 48, 4000, 8, 4, 60
+			cfg.budgetS, cfg.minBatches, cfg.maxBatches, cfg.detBatches, cfg.parBatches, cfg.minimiseS = 75, 48, 6000, 8, 4, 60
 		case "thorough":
 			cfg.budgetS, cfg.minBatches, cfg.maxBatches, cfg.detBatches, cfg.parBatches, cfg.minimiseS = 1200, 64, 1000000, 64, 64, 300
 			if s := os.Getenv("VERIF_BUDGET_S"); s != "" {
